@@ -138,6 +138,20 @@ func (c *Ctx) Finish(level string, cov Coverage) int {
 	viols := c.Violations()
 	newCount, knownCount := 0, 0
 	var knownSeen []string
+	// replay artefacts of this property are those of the latest run only; a run against a scratch tree
+	// (VERIF_REPO, e.g. a seeded change) keeps its artefacts apart so that triage never mistakes them for
+	// findings on /repo
+	replayDir := filepath.Join(c.VerifDir, "replays")
+	if c.RepoDir != "" && c.RepoDir != "/repo" {
+		replayDir = filepath.Join(c.VerifDir, "replays", "scratch-tree")
+	}
+	if c.Replay == "" {
+		if old, _ := filepath.Glob(filepath.Join(replayDir, c.ID+"-*.json")); len(old) > 0 {
+			for _, f := range old {
+				os.Remove(f)
+			}
+		}
+	}
 	for _, v := range viols {
 		if _, ok := known[v.Sig]; ok {
 			knownCount++
@@ -147,9 +161,9 @@ func (c *Ctx) Finish(level string, cov Coverage) int {
 		}
 		newCount++
 		h := sha256.Sum256([]byte(v.Sig))
-		path := filepath.Join(c.VerifDir, "replays", fmt.Sprintf("%s-%s.json", c.ID, hex.EncodeToString(h[:6])))
+		path := filepath.Join(replayDir, fmt.Sprintf("%s-%s.json", c.ID, hex.EncodeToString(h[:6])))
 		os.MkdirAll(filepath.Dir(path), 0o755)
-		b, _ := json.MarshalIndent(map[string]any{"property": c.ID, "signature": v.Sig, "detail": v.Detail, "count": v.Count, "replay": v.Replay}, "", " ")
+		b, _ := json.MarshalIndent(map[string]any{"property": c.ID, "signature": v.Sig, "detail": v.Detail, "count": v.Count, "replay": v.Replay, "tier": c.Tier, "tree": treeOf(c.RepoDir)}, "", " ")
 		os.WriteFile(path, b, 0o644)
 		fmt.Fprintf(Out, "VIOLATION property=%s replay=%s\n", c.ID, path)
 		fmt.Fprintf(Out, "  signature: %s\n  detail: %s\n", v.Sig, firstLines(v.Detail, 12))
@@ -309,4 +323,18 @@ func Trunc(s string, n int) string {
 		return s
 	}
 	return s[:n] + fmt.Sprintf("…(+%d bytes)", len(s)-n)
+}
+
+// treeOf names the tree a run looked at: /repo's HEAD (plus "+dirty" when the working tree differs) or the scratch tree.
+func treeOf(repo string) string {
+	if repo == "" {
+		repo = "/repo"
+	}
+	head, _ := exec.Command("git", "-C", repo, "rev-parse", "--short", "HEAD").Output()
+	st, _ := exec.Command("git", "-C", repo, "status", "--porcelain", "--untracked-files=no").Output()
+	t := repo + "@" + strings.TrimSpace(string(head))
+	if len(strings.TrimSpace(string(st))) > 0 {
+		t += "+dirty"
+	}
+	return t
 }
